@@ -2,8 +2,12 @@ package main
 
 // Stream "conc": the runtime supporting run of C14 (EVIDENCE, not a theorem).
 // One case = one run: N goroutines x M Do calls (mixed request types) on ONE client, with
-// concurrent Close / Connect, against the recording in-memory transport of conctransport.go.
+// concurrent Close / Connect (serial client: Close / operator reopens the port) from two further
+// goroutines, against the recording in-memory transport of conctransport.go.
 // Kinds: 0 = modbus.Client with TCP framing, 1 = modbus.Client with RTU framing, 2 = SerialClient.
+// Outcome: ok [whole, own, no_panic, serialised], or err [7] when the case did not finish within
+// concHangBound (deadlock / livelock).  Every call is made under recover: a panic inside the
+// library is counted, the case goes on and is emitted.
 // Meant to be built with -race (the race detector is part of what the run exercises); works
 // without it as well.
 
@@ -15,6 +19,7 @@ import (
 	"sort"
 	"sync"
 	"sync/atomic"
+	"time"
 
 	modbus "github.com/aldas/go-modbus-client"
 	"github.com/aldas/go-modbus-client/packet"
@@ -26,9 +31,22 @@ type concCall struct {
 	g, k  int
 	req   packet.Request
 	bytes []byte
-	ok    bool
-	reply []byte
+	// written by the calling goroutine, read by the judge: both under concRun's result mutex
+	status int // 0 reply received, 1 error returned, 2 the call panicked, 3 never returned
+	reply  []byte
 }
+
+// a case that has not finished after this long is emitted as a hang (cases take well under a
+// second); after concMaxHangs hangs the rest of the stream is skipped: the run is already decided
+// and every further case would cost the bound again
+const concHangBound = 30 * time.Second
+const concMaxHangs = 2
+
+var concHangs int
+
+// replies are available as soon as the request is written, so a short total read time-out only
+// matters when a reply was lost
+const concReadTimeout = 250 * time.Millisecond
 
 // a request whose bytes are unique within the run: id goes into the transaction id (TCP) and
 // into the start address (all kinds)
@@ -123,14 +141,16 @@ func concRun(kind int, r *rng, n, m int, nCloses int) {
 	for g := 0; g < n; g++ {
 		for k := 0; k < m; k++ {
 			req := concRequest(kind, r, uint16(1+g*m+k))
-			calls[g] = append(calls[g], &concCall{g: g, k: k, req: req, bytes: req.Bytes()})
+			calls[g] = append(calls[g], &concCall{g: g, k: k, req: req, bytes: req.Bytes(), status: 3})
 		}
 	}
 	thresholds := make([]int, nCloses)
 	yields := make([]int, nCloses)
+	delays := make([]int, nCloses)
 	for i := range thresholds {
 		thresholds[i] = r.intn(n*m + 1)
 		yields[i] = r.intn(4)
+		delays[i] = r.intn(36) // ms; serial client only: lands inside its 30 ms write-to-read pause
 	}
 	sort.Ints(thresholds)
 
@@ -149,9 +169,10 @@ func concRun(kind int, r *rng, n, m int, nCloses int) {
 	var connect func()
 	switch kind {
 	case 0, 1:
-		conf := modbus.ClientConfig{DialContextFunc: func(ctx context.Context, address string) (net.Conn, error) {
-			return newConn(), nil
-		}}
+		conf := modbus.ClientConfig{ReadTimeout: concReadTimeout,
+			DialContextFunc: func(ctx context.Context, address string) (net.Conn, error) {
+				return newConn(), nil
+			}}
 		var c *modbus.Client
 		if kind == 0 {
 			c = modbus.NewTCPClientWithConfig(conf)
@@ -162,30 +183,53 @@ func concRun(kind int, r *rng, n, m int, nCloses int) {
 		connect()
 		client = c
 	default:
-		client = modbus.NewSerialClient(newConn())
-		connect = func() {}
+		port := newConn()
+		client = modbus.NewSerialClient(port, modbus.WithSerialReadTimeout(concReadTimeout))
+		connect = port.reopen // the operator plugs the device in again; not a library call
 	}
 
-	var panics, completed int32
+	var panics, completed, abort int32
+	var rmu sync.Mutex // results of the calls
 	var wg sync.WaitGroup
 	start := make(chan struct{})
+	// one call, under recover: a panic inside the library is recorded and the goroutine goes on
+	doOne := func(c *concCall) {
+		defer atomic.AddInt32(&completed, 1)
+		defer func() {
+			if rec := recover(); rec != nil {
+				atomic.AddInt32(&panics, 1)
+				rmu.Lock()
+				c.status = 2
+				rmu.Unlock()
+			}
+		}()
+		resp, err := client.Do(ctx, c.req)
+		st, reply := 1, []byte(nil)
+		if err == nil && resp != nil {
+			st, reply = 0, resp.Bytes()
+		}
+		rmu.Lock()
+		c.status, c.reply = st, reply
+		rmu.Unlock()
+	}
+	guarded := func(f func()) {
+		defer func() {
+			if rec := recover(); rec != nil {
+				atomic.AddInt32(&panics, 1)
+			}
+		}()
+		f()
+	}
 	for g := 0; g < n; g++ {
 		wg.Add(1)
 		go func(mine []*concCall) {
 			defer wg.Done()
-			defer func() {
-				if rec := recover(); rec != nil {
-					atomic.AddInt32(&panics, 1)
-				}
-			}()
 			<-start
 			for _, c := range mine {
-				resp, err := client.Do(ctx, c.req)
-				if err == nil && resp != nil {
-					c.ok = true
-					c.reply = resp.Bytes()
+				if atomic.LoadInt32(&abort) != 0 {
+					return
 				}
-				atomic.AddInt32(&completed, 1)
+				doOne(c)
 			}
 		}(calls[g])
 	}
@@ -195,51 +239,65 @@ func concRun(kind int, r *rng, n, m int, nCloses int) {
 		wg.Add(1)
 		go func() {
 			defer wg.Done()
-			defer func() {
-				if rec := recover(); rec != nil {
-					atomic.AddInt32(&panics, 1)
-				}
-			}()
 			<-start
 			for i, th := range thresholds {
-				for int(atomic.LoadInt32(&completed)) < th {
+				for int(atomic.LoadInt32(&completed)) < th && atomic.LoadInt32(&abort) == 0 {
 					runtime.Gosched()
 				}
-				_ = client.Close()
+				if atomic.LoadInt32(&abort) != 0 {
+					return
+				}
+				if kind == 2 {
+					time.Sleep(time.Duration(delays[i]) * time.Millisecond)
+				}
+				guarded(func() { _ = client.Close() })
 				for y := 0; y < yields[i]; y++ {
 					runtime.Gosched()
 				}
-				connect()
+				guarded(connect)
 			}
 		}()
 	}
 	close(start)
-	wg.Wait()
+	// watchdog: a deadlocked or livelocked case is emitted as a hang instead of blocking the run
+	done := make(chan struct{})
+	go func() { wg.Wait(); close(done) }()
+	hang := false
+	select {
+	case <-done:
+	case <-time.After(concHangBound):
+		hang = true
+		atomic.StoreInt32(&abort, 1) // goroutines blocked inside the library are left behind
+	}
 
 	// ---- judge the record ----
 	want := map[string]int{}
 	own := true
 	var callVals []V
+	rmu.Lock()
 	for g := 0; g < n; g++ {
 		for _, c := range calls[g] {
-			st := 1
-			if c.ok {
-				st = 0
+			if c.status == 0 {
 				want[string(c.bytes)]++
 				if !bytes.Equal(c.reply, concReply(kind, c.bytes)) {
 					own = false
 				}
 			}
-			callVals = append(callVals, L(I(c.g), I(c.k), B(c.bytes), I(st), B(c.reply)))
+			callVals = append(callVals, L(I(c.g), I(c.k), B(c.bytes), I(c.status), B(c.reply)))
 		}
 	}
-	whole := true
-	var logVals []V
-	for _, c := range conns {
-		log, overlaps := c.snapshot()
+	rmu.Unlock()
+	whole, serialised := true, true
+	var logVals, connVals []V
+	cmu.Lock()
+	all := append([]*memConn{}, conns...)
+	cmu.Unlock()
+	for _, c := range all {
+		log, overlaps, midClose := c.snapshot()
 		logVals = append(logVals, B(log))
-		if overlaps != 0 {
-			whole = false
+		connVals = append(connVals, L(I(overlaps), I(midClose)))
+		if overlaps != 0 || midClose != 0 {
+			serialised = false
 		}
 		w := log
 		for len(w) > 0 {
@@ -257,8 +315,15 @@ func concRun(kind int, r *rng, n, m int, nCloses int) {
 			whole = false
 		}
 	}
+	np := int(atomic.LoadInt32(&panics))
 	name := []string{"conc_tcp", "conc_rtu", "conc_serial"}[kind]
-	emit(name, L(I(kind), L(logVals...), L(callVals...)), vOk(Bool(whole), Bool(own), Bool(panics == 0)))
+	args := L(I(kind), L(logVals...), L(callVals...), L(connVals...), I(np))
+	if hang {
+		concHangs++
+		emit(name, args, vErr(I(7)))
+		return
+	}
+	emit(name, args, vOk(Bool(whole), Bool(own), Bool(np == 0), Bool(serialised)))
 }
 
 func streamConc(seed uint64, thorough bool) {
@@ -267,14 +332,15 @@ func streamConc(seed uint64, thorough bool) {
 	if thorough {
 		runs, serialRuns = 600, 40
 	}
-	for i := 0; i < runs; i++ {
+	for i := 0; i < runs && concHangs < concMaxHangs; i++ {
 		kind := i % 2
 		n := 2 + r.intn(7)  // 2..8 goroutines
 		m := 1 + r.intn(20) // 1..20 calls each
 		concRun(kind, r, n, m, r.intn(6))
 	}
-	// the serial client sleeps 30 ms per exchange: few and small runs; Close at most once
-	for i := 0; i < serialRuns; i++ {
-		concRun(2, r, 2+r.intn(3), 1+r.intn(3), r.intn(2))
+	// the serial client sleeps 30 ms per exchange: few and small runs; Close (and the operator
+	// reopening the port) at several drawn points, also inside exchanges
+	for i := 0; i < serialRuns && concHangs < concMaxHangs; i++ {
+		concRun(2, r, 2+r.intn(3), 1+r.intn(4), r.intn(5))
 	}
 }
